@@ -12,12 +12,12 @@ def run(ctx):
                 "options) x request menu; non-trivial = at least one option given")
     ctx.assumptions = ["initialisation times are whole hours; option values from the 4-value menus of MC_Dataset!OptMenu"]
     if ctx.tier == "quick":
-        dscommon.run_family(ctx, "C03K2", fmt="text", nontrivial_fn=lambda o: bool(o["opts"]["given"]))
-        dscommon.run_family(ctx, "C03ClimK1", fmt="text", nontrivial_fn=lambda o: bool(o["opts"]["given"]))
+        dscommon.run_family(ctx, "C03K2", fmt="text", nontrivial_fn=lambda o: bool(o["opts"]["given"]), cli_lists=250)
+        dscommon.run_family(ctx, "C03ClimK1", fmt="text", nontrivial_fn=lambda o: bool(o["opts"]["given"]), cli_lists=40)
         dscommon.run_family(ctx, "C03K1", fmt="netcdf", nontrivial_fn=lambda o: bool(o["opts"]["given"]))
     else:
         dscommon.run_family(ctx, "C03K3", fmt="text", nontrivial_fn=lambda o: bool(o["opts"]["given"]), timeout_s=1800)
-        dscommon.run_family(ctx, "C03K2", fmt="netcdf", nontrivial_fn=lambda o: bool(o["opts"]["given"]))
+        dscommon.run_family(ctx, "C03K2", fmt="netcdf", nontrivial_fn=lambda o: bool(o["opts"]["given"]), cli_lists=10000)
         dscommon.run_family(ctx, "C03ClimK2", fmt="text", nontrivial_fn=lambda o: bool(o["opts"]["given"]))
         ctx.exhaustive = True
     par.clean_workdirs()
